@@ -1209,7 +1209,7 @@ fn generate_clone_family(seed: u64, r: &mut Rng) -> RunTrace {
 /// Generates the explicit programme of one run from its seed.
 pub fn generate(seed: u64, prof: Profile, miri: bool) -> RunTrace {
     let mut r = Rng::new(seed ^ 0xd51_0000_0000 ^ (prof as u64) << 56);
-    if miri && prof == Profile::Constructors && r.pct(60) {
+    if miri && prof == Profile::Constructors && r.pct(75) {
         return generate_clone_family(seed, &mut r);
     }
     if miri && prof == Profile::Safety && r.pct(50) {
